@@ -50,9 +50,9 @@ import (
 )
 
 var pbLeafTypes = map[string]bool{
-	"google.protobuf.Any":           true,
-	"cosmos.base.v1beta1.Coin":      true,
-	"cosmos.tx.v1beta1.ModeInfo":    true,
+	"google.protobuf.Any":                            true,
+	"cosmos.base.v1beta1.Coin":                       true,
+	"cosmos.tx.v1beta1.ModeInfo":                     true,
 	"cosmos.crypto.multisig.v1beta1.CompactBitArray": true,
 }
 
@@ -411,13 +411,13 @@ func perturbPbField(base []byte, f pbField, sm pbSamples) []pbPerturbation {
 			case protoreflect.EnumKind:
 				m.Set(fd, protoreflect.ValueOfEnum(cur.Enum()+1))
 			case protoreflect.Uint64Kind, protoreflect.Fixed64Kind:
-				m.Set(fd, protoreflect.ValueOfUint64(cur.Uint() + 1))
+				m.Set(fd, protoreflect.ValueOfUint64(cur.Uint()+1))
 			case protoreflect.Uint32Kind, protoreflect.Fixed32Kind:
-				m.Set(fd, protoreflect.ValueOfUint32(uint32(cur.Uint()) + 1))
+				m.Set(fd, protoreflect.ValueOfUint32(uint32(cur.Uint())+1))
 			case protoreflect.Int64Kind, protoreflect.Sint64Kind, protoreflect.Sfixed64Kind:
-				m.Set(fd, protoreflect.ValueOfInt64(cur.Int() + 1))
+				m.Set(fd, protoreflect.ValueOfInt64(cur.Int()+1))
 			case protoreflect.Int32Kind, protoreflect.Sint32Kind, protoreflect.Sfixed32Kind:
-				m.Set(fd, protoreflect.ValueOfInt32(int32(cur.Int()) + 1))
+				m.Set(fd, protoreflect.ValueOfInt32(int32(cur.Int())+1))
 			default:
 				return false
 			}
